@@ -312,7 +312,7 @@ def run_fixture(ctx, L, n):
         for omit in omits:
             progs = [('all-continue', {})]
             for i in range(nev):
-                if ctx.tier != 'quick' or i >= nev - 6 or (i + len(omit) + n) % 7 == 0:
+                if i >= nev - 6 or (i + len(omit) + n) % (7 if ctx.tier == 'quick' else 3) == 0:
                     for a in ANSWERS:
                         progs.append(('single:%s:%s' % (events0[i][0], answer_name(a)), {i: a}))
             for k in range(2):
